@@ -578,7 +578,7 @@ def _exitstack_mode(ctx, R, repo, pc: FuncInfo, fns: List[FuncInfo]) -> bool:
              and ap(x.func.value) in regs_attr) for x in ast.walk(e))
     lookups = [s_ for s_ in stores(hf.node, into_defs=False) if s_.kind == "assign" and isinstance(s_.target, ast.Name)
                and is_lookup(s_.value)]
-    ctx.floor(R, "flow look-ups in the pump", len(lookups), 2)
+    ctx.floor(R, "flow look-ups in the pump", len(lookups), 1)
     for s_ in lookups:
         starts = [n for n in cfg.nodes if n.ast is s_.node]
         mine = {n for n in reg_nodes if site_var.get(id(n)) == s_.path}
@@ -636,14 +636,23 @@ def r3(ctx):
     regs = _registry_attrs(repo, g.cls)
     ctx.require(bool(regs), f"{R}: flow registry attribute of {g.cls.name} not found")
 
-    def is_lookup(e):
-        return e is not None and any(
-            (isinstance(x, ast.Subscript) and ap(x.value) in regs) or
-            (isinstance(x, ast.Call) and isinstance(x.func, ast.Attribute) and x.func.attr in ("get", "pop")
-             and ap(x.func.value) in regs) for x in ast.walk(e))
+    def is_lookup(e, depth=1):
+        if e is None:
+            return False
+        for x in ast.walk(e):
+            if (isinstance(x, ast.Subscript) and ap(x.value) in regs) or \
+                    (isinstance(x, ast.Call) and isinstance(x.func, ast.Attribute) and x.func.attr in ("get", "pop")
+                     and ap(x.func.value) in regs):
+                return True
+            # a helper of the class that returns the looked-up flow (`orig_flow = self._find_held_flow(..)`)
+            if depth > 0 and isinstance(x, ast.Call) and isinstance(x.func, ast.Attribute) and ap(x.func.value) in ("self", "cls"):
+                hm = repo.lookup_method(g.cls, x.func.attr)
+                if hm is not None and any(isinstance(r_, ast.Return) and is_lookup(r_.value, depth - 1) for r_ in walk(hm.node)):
+                    return True
+        return False
     lookups = [s for s in stores(g.node, into_defs=False) if s.kind == "assign" and isinstance(s.target, ast.Name)
                and is_lookup(s.value)]
-    ctx.floor(R, "flow look-ups in the pump", len(lookups), 2)
+    ctx.floor(R, "flow look-ups in the pump", len(lookups), 1)
     binds = [s for s in stores(g.node, into_defs=False) if s.path == v and s.kind == "assign" and s.value is not None
              and not (isinstance(s.value, ast.Constant) and s.value.value is None)]
     bind_nodes = {n for n in cfg.nodes for s in binds if n.ast is s.node}
@@ -658,7 +667,7 @@ def r3(ctx):
                    path is None and bool(bn), ctx.w(g, s.node),
                    f"a call that may raise runs on the looked-up flow while {v} is still unset: the finally skips the "
                    f"resume and the intercepted flow stays paused", cfg.describe_path(path) if path else None)
-    ctx.floor(R, f"bindings of {v}", len(binds), 2)
+    ctx.floor(R, f"bindings of {v}", len(binds), 1)
     for s in binds:
         starts = [n for n in cfg.nodes if n.ast is s.node]
         path = cfg_search(cfg, starts, target=lambda n: n in heads or n is cfg.exit or n is cfg.raise_exit,
@@ -667,13 +676,18 @@ def r3(ctx):
                path is None and bool(hnodes), ctx.w(g, s.node),
                "the intercepted flow is left paused in mitmproxy (viewer request hangs)",
                cfg.describe_path(path) if path else None)
-    fall = [c for c in find_calls(g.node, "set_state", into_defs=False)]
+    fall = [(f, c) for f in fns for c in find_calls(f.node, "set_state", into_defs=False)]
     ctx.floor(R, "set_state calls", len(fall), 2)
-    for c in fall:
-        ok = _swallowing(c, g.node)
+    for f_, c in fall:
+        ok = _swallowing(c, f_.node)
+        if not ok and f_ is not g:
+            # applied in a helper: every call of that helper in the function holding the try must be contained
+            hsites = [sc for sc in find_calls(g.node, f_.name, into_defs=False)
+                      if isinstance(sc.func, ast.Attribute) and ap(sc.func.value) in ("self", "cls")]
+            ok = bool(hsites) and all(_swallowing(sc, g.node) for sc in hsites)
         if not ok and g is not pc:
             ok = all(_swallowing(sc, f.node) for f, sc in sites) and bool(sites)
-        ctx.ob(R, f"{g.qual}: {norm(c)} failure does not end the pump", ok, ctx.w(g, c),
+        ctx.ob(R, f"{f_.qual}: {norm(c)} failure does not end the pump", ok, ctx.w(f_, c),
                "an exception would end the _pump_callbacks task: no later flow is resumed")
 
 
@@ -1425,8 +1439,28 @@ def r5(ctx):
         if fnode is None:
             continue
         params = {a.arg for a in fnode.args.args + fnode.args.kwonlyargs}
-        if c.func.value.id not in params or c.func.value.id in ("self", "cls"):
-            continue       # pump_proxy_event / _pump_callbacks resume locals (R1 / R3)
+        pos = [a.arg for a in fnode.args.args]
+        in_manager = f.cls is not None and any(k.name in ("MITMProxyEventManager", "IPCInterceptionAddon") for k in repo.mro(f.cls))
+        if in_manager:
+            continue       # the event manager's hand-back and the proxy-side pump (R1 / R3)
+        # everybody else may resume only a flow it was handed as taken: the receiver is a parameter and every call
+        # site of the function passes `<flow>.take()` in that position
+        rv = c.func.value.id
+        owner = False
+        if rv in pos and getattr(fnode, "name", None):
+            i_ = pos.index(rv) - (1 if f.cls is not None and fnode is f.node and pos and pos[0] in ("self", "cls") else 0)
+            sites = [cc for g_, cc in call_index(repo).get(fnode.name, [])
+                     if (isinstance(cc.func, ast.Name) if f.cls is None or fnode is not f.node else
+                         isinstance(cc.func, ast.Attribute) and ap(cc.func.value) in ("self", "cls"))]
+            owner = bool(sites) and all(
+                (i_ < len(cc.args) and any(isinstance(x, ast.Call) and call_attr(x) == "take" for x in ast.walk(cc.args[i_]))) or
+                any(k.arg == rv and any(isinstance(x, ast.Call) and call_attr(x) == "take" for x in ast.walk(k.value))
+                    for k in cc.keywords) for cc in sites)
+        ctx.ob(R, f"{f.qual}: {norm(c)} resumes a flow this function was handed as taken", owner, ctx.w(f, c),
+               "resume() by code that does not own the flow: a flow an addon took is handed back behind its back (the owner's "
+               "later changes are lost and its own resume() trips the exactly-once assertion)")
+        if not owner:
+            continue
         n += 1
         cfg = CFG(fnode)
         rn = set(cfg.stmt_nodes_containing(c))
